@@ -63,6 +63,24 @@ def is_simple(poly) -> bool:
     return True
 
 
+def drop_repeats(poly):
+    """remove consecutive (cyclically) repeated vertices"""
+    out = []
+    for v in poly:
+        if not out or out[-1] != v:
+            out.append(v)
+    while len(out) > 1 and out[0] == out[-1]:
+        out.pop()
+    return out
+
+
+def is_valid_ring(poly) -> bool:
+    """what GEOS `is_valid` says about the polygon with this exterior ring: repeated
+    consecutive vertices are tolerated, everything else must be a simple ring of non-zero
+    area.  `Convention.polygons` replaces invalid polygons by None."""
+    return is_simple(drop_repeats(list(poly)))
+
+
 def classify(poly) -> str:
     """convex | collinear (convex with flat vertices) | concave"""
     n = len(poly)
